@@ -146,7 +146,11 @@ func GenWS(t *rapid.T, p Profile) WS {
 // GenHistory draws a history: a workspace, an initial full build, then MinSteps..MaxSteps steps.
 func GenHistory(t *rapid.T, p Profile) History {
 	h := History{WS: GenWS(t, p)}
-	h.Steps = append(h.Steps, Step{Kind: "build", Build: &BuildOpts{Patterns: []string{"//..."}}})
+	first := Step{Kind: "build", Build: &BuildOpts{Patterns: []string{"//..."}}}
+	if p.CasFaults && rapid.IntRange(0, 3).Draw(t, "first-build-faulty") == 0 {
+		first.Kind = "build-casfault" // nothing is cached yet: whatever this build records is all there is
+	}
+	h.Steps = append(h.Steps, first)
 	n := rapid.IntRange(p.MinSteps, p.MaxSteps).Draw(t, "nsteps")
 	kinds := []string{"build", "build", "build"}
 	kinds = append(kinds, p.Edits...)
